@@ -224,5 +224,10 @@ def run(ctx):
                     ok = False
             r2.check(ok, 'use-of-ch@%d' % n, x.where, 'message byte used other than in ==/!= with a constant')
     r2.expect_min(3)
+    r3 = rep.rule('C06.3-short-writes', 'R-BOUND', 'substdo.c allwrite: after a short write exactly the unwritten remainder is written next (linear symbolic check of the buffer and length arguments over three iterations), so nothing but the encoded stream reaches the socket')
+    from rules import shortwrite
+    for inst, v in sorted(shortwrite.allwrite_sites(db, rep).items()):
+        r3.check(v[0], 'allwrite:' + inst, v[1], v[2], v[3])
+    r3.expect_min(2)
     rep.assume('substdio_get(&ssin,&ch,1) yields the message bytes in order; substdio_put(&smtpto,...) sends bytes in order',
                'receiver model: RFC 5321 section 4.5.2 (CRLF line ends, leading dot removed, CRLF.CRLF ends the data)')
